@@ -758,3 +758,111 @@ Proof.
   destruct (is_inbox c) eqn:Ei; [|reflexivity].
   f_equal; symmetry; eapply canonical_result_inbox; eassumption.
 Qed.
+
+(* ------------------------------------------------------------------ the mailbox table over histories *)
+Lemma split_app_general a b :
+  split_slash (a ++ b) =
+  removelast (split_slash a) ++ (last (split_slash a) [] ++ hd [] (split_slash b)) :: tl (split_slash b).
+Proof.
+  induction a as [|c a IH]; cbn [app].
+  - cbn [split_slash removelast last app]. destruct (split_slash b) eqn:E; [exfalso; exact (split_nonnil b E)|reflexivity].
+  - cbn [split_slash]. destruct (c =? SLASH).
+    + rewrite IH. destruct (split_slash a) as [|h t] eqn:E; [exfalso; exact (split_nonnil a E)|]. reflexivity.
+    + rewrite IH. destruct (split_slash a) as [|h t] eqn:E; [exfalso; exact (split_nonnil a E)|].
+      destruct t as [|h1 t]; reflexivity.
+Qed.
+
+Lemma split_skipn k : forall r, exists t0 pre rest,
+  split_slash (skipn k r) = t0 :: rest /\ split_slash r = pre ++ rest /\ pre <> [].
+Proof.
+  induction k as [|k IH]; intros r.
+  - cbn [skipn]. destruct (split_slash r) as [|h t] eqn:E; [exfalso; exact (split_nonnil r E)|].
+    exists h, [h], t; repeat split; discriminate.
+  - destruct r as [|c r]; cbn [skipn].
+    + exists [], [[]], []; repeat split; discriminate.
+    + destruct (IH r) as [t0 [pre [rest [E1 [E2 Hp]]]]].
+      cbn [split_slash]. destruct (c =? SLASH).
+      * exists t0, ([] :: pre), rest; rewrite E2; repeat split; [exact E1|discriminate].
+      * rewrite E2. destruct pre as [|h pre]; [exfalso; apply Hp; reflexivity|].
+        exists t0, ((c :: h) :: pre), rest; repeat split; [exact E1|discriminate].
+Qed.
+
+Lemma noslash_app a b : Noslash a -> Noslash b -> Noslash (a ++ b).
+Proof. unfold Noslash, noslash; intros Ha Hb; rewrite forallb_app, Ha, Hb; reflexivity. Qed.
+
+Lemma normal_app c t : Normal c -> Noslash t -> Normal (c ++ t).
+Proof.
+  intros Hc Ht. pose proof (noslash_app c t (normal_noslash c Hc) Ht) as Hn.
+  destruct (normal_parts c Hc) as [He [Hd [Hdd _]]].
+  unfold Normal, normalc; rewrite Hn, andb_true_r.
+  unfold c_dot, c_dotdot, s_dot, s_dotdot in *.
+  destruct c as [|x [|y [|z c]]]; [discriminate He| | |]; cbn [app c_empty str_eqb negb andb] in *.
+  - rewrite andb_true_r in Hd. rewrite Hd; reflexivity.
+  - destruct t; cbn [str_eqb] in *; rewrite ?andb_false_r, ?andb_true_r in *; [rewrite Hdd; reflexivity|reflexivity].
+  - rewrite ?andb_false_r; reflexivity.
+Qed.
+
+Lemma removelast_In {A} (l : list A) x : In x (removelast l) -> In x l.
+Proof.
+  induction l as [|a l IH]; [intros []|]. destruct l as [|b l]; [intros []|].
+  cbn [removelast]. intros [->|H]; [left; reflexivity|right; apply IH; exact H].
+Qed.
+
+Lemma last_In {A} (l : list A) d : l <> [] -> In (last l d) l.
+Proof.
+  induction l as [|a l IH]; [intros H; exfalso; apply H; reflexivity|intros _].
+  destruct l as [|b l]; [left; reflexivity|right; apply IH; discriminate].
+Qed.
+
+(* whatever tail of a clean name is appended to a non-empty clean name, the result is clean *)
+Lemma clean_append_tail cn r k : clean cn -> cn <> [] -> clean r -> clean (cn ++ skipn k r).
+Proof.
+  intros Hc Hne [->|Hr]; [rewrite skipn_nil, app_nil_r; exact Hc|].
+  destruct Hc as [->|Hcn]; [exfalso; apply Hne; reflexivity|].
+  right. rewrite split_app_general.
+  destruct (split_skipn k r) as [t0 [pre [rest [E1 [E2 Hp]]]]].
+  rewrite E1; cbn [hd tl].
+  rewrite Forall_forall in Hcn.
+  apply Forall_app; split.
+  - apply Forall_forall; intros x Hx; apply Hcn; apply removelast_In; exact Hx.
+  - assert (Ht0 : Noslash t0).
+    { pose proof (split_noslash (skipn k r)) as H; rewrite E1 in H; inversion H; assumption. }
+    constructor.
+    + apply normal_app; [apply Hcn; apply last_In; apply split_nonnil|exact Ht0].
+    + rewrite E2 in Hr; apply Forall_app in Hr; apply Hr.
+Qed.
+
+Lemma rows_of_clean names : Forall clean (rows_of names).
+Proof.
+  unfold rows_of; apply Forall_forall; intros r Hr; apply in_flat_map in Hr; destruct Hr as [n [_ Hr]].
+  destruct (canonical_mbox_name n) eqn:E; [|destruct Hr]. destruct Hr as [<-|[]]. eapply canonical_clean; exact E.
+Qed.
+
+Lemma db_step_clean d o : Forall clean d -> Forall clean (db_step d o).
+Proof.
+  intros Hd; destruct o as [n|n|n|o n sel]; cbn [db_step].
+  - apply Forall_app; split; [apply rows_of_clean|exact Hd].
+  - destruct (canonical_mbox_name n); [|exact Hd]. apply Forall_app; split; [apply rows_of_clean|exact Hd].
+  - destruct (canonical_mbox_name n); [|exact Hd].
+    apply Forall_forall; intros r Hr; apply filter_In in Hr; rewrite Forall_forall in Hd; apply Hd, Hr.
+  - destruct (canonical_mbox_name n) as [cn|] eqn:En; [|exact Hd].
+    destruct (canonical_mbox_name o) as [co|] eqn:Eo; [|exact Hd].
+    destruct (c_empty cn) eqn:Ee; [exact Hd|].
+    apply Forall_forall; intros r Hr; apply in_map_iff in Hr; destruct Hr as [r0 [<- Hr0]].
+    rewrite Forall_forall in Hd. destruct (sel r0); [|apply Hd; exact Hr0].
+    apply clean_append_tail; [eapply canonical_clean; exact En| |apply Hd; exact Hr0].
+    intros ->; discriminate Ee.
+Qed.
+
+Theorem db_rows_clean ops : Forall clean (db_run ops).
+Proof.
+  unfold db_run. assert (H : Forall clean (@nil str)) by constructor. revert H. generalize (@nil str).
+  induction ops as [|o ops IH]; intros d Hd; cbn [fold_left]; [exact Hd|].
+  apply IH; apply db_step_clean; exact Hd.
+Qed.
+
+Theorem db_rows_inside root ops r : root_ok root = true -> In r (db_run ops) -> inside root (folder_path root r).
+Proof.
+  intros Hr Hin; apply clean_inside; [exact Hr|].
+  pose proof (db_rows_clean ops) as H; rewrite Forall_forall in H; apply H; exact Hin.
+Qed.
